@@ -269,21 +269,7 @@ def run(tier="quick", seed=0, jobs=16):
     from props import C12 as c12
     from vt import kernels
 
-    try:
-        vcs, info = kernels.verification_conditions("bg_id_numpy")
-        lostk = []
-        for oname, status, backend, secs, reason in kernels.discharge(vcs, 30):
-            rep.ob("KN " + oname, status, backend, secs, info["where"], "vc", reason)
-            if status != "discharged":
-                lostk.append(oname)
-        if lostk:
-            ne, nd, badk = c12._bounded_bg_wthh(3)
-            badk = [b for b in badk if b["kernel"] == "bg_id_numpy"]
-            if badk:
-                rep.undecided = [u for u in rep.undecided if not u.startswith("KN ")]
-                rep.violation("bg_id_numpy:contract", f"the needs-unit contract the nesting eg/bg/fg rests on does not hold: bg_id_numpy on {badk[0]['inputs']} gives {badk[0]['got']} (persons who are not split-off children under 25 are separated from their family unit, so _bg columns read by _eg / _fg rules differ within the group)", {"obligation": lostk[0], **badk[0]}, True)
-    except kernels.Unsupported as ex:
-        rep.ob("KN bg_id_numpy: contract binds to the code", "unsupported", "E2", 0, "src/_gettsim/groupings.py", "binding", str(ex))
+    c12.recheck_kernel(rep, "bg_id_numpy", "KN", "the needs-unit contract the nesting eg/bg/fg rests on does not hold (persons who are not split-off children under 25 are separated from their family unit, or ids leave the block of their family, so _bg columns read by _eg / _fg rules differ within the group)")
     fi, fj, ri, rj = z3.Ints("fg_i fg_j bg_i bg_j")
     si, sj, same = z3.Bools("split_i split_j same_person")
     p1 = (ri == rj) == z3.And(fi == fj, z3.Or(same, z3.And(z3.Not(si), z3.Not(sj))))
